@@ -126,14 +126,14 @@ func c01Run(r *vt.Run, c c01Case) (points []sim.Point, devDesc string, found []c
 			sw.To = "h3"
 		case "from1":
 			sw.From = "h1"
-		case "forced":
+		case "forced", "forced-dead":
 			sw.From, sw.MasterTransition = "h1", FailoverTransition
 		default:
 			sw.From, sw.Cause, sw.MasterTransition = "h1", CauseAuto, FailoverTransition
 		}
 		w.ZK.Put(vns+"/switch", jsonStr(sw))
 		switch wd.Kind {
-		case "auto-dead":
+		case "auto-dead", "forced-dead":
 			m.Crash(w)
 		case "auto-hung":
 			for _, x := range spec.AllHosts() {
@@ -232,7 +232,7 @@ func c01Run(r *vt.Run, c c01Case) (points []sim.Point, devDesc string, found []c
 					}
 				}
 				exempt := false
-				if wd.Mode == "async" && wd.Kind != "to2" && wd.Kind != "to3" && wd.Kind != "from1" && wd.Kind != "forced" {
+				if wd.Mode == "async" && strings.HasPrefix(wd.Kind, "auto") {
 					var ts float64
 					var raw string
 					h.ZGet("master_repl_mon_ts", &raw)
@@ -240,6 +240,18 @@ func c01Run(r *vt.Run, c c01Case) (points []sim.Point, devDesc string, found []c
 					if ts-ps.ReplMonTS < 10 {
 						exempt = true
 						r.Count("async_exemption_used")
+					}
+				}
+				if wd.Mode == "async" && !exempt {
+					// without semi-sync the quorum is met by the promoted node alone; what the statement's
+					// "only exception" rules out is promoting, outside an automatic failover within the allowed
+					// lag, a node that lacks what a frozen member holds (executed or merely received)
+					for _, x := range A {
+						s := w.Servers[x]
+						if x != p && s != nil && s.Up && s.ReadOnly && !s.Positions().SubsetOf(ps.Executed) {
+							violate("C01/4-async-lag-exception-only-for-automatic-failover", fmt.Sprintf("%s made writable (executed %s) although frozen member %s holds %s and this is not an automatic failover within the allowed lag",
+								p, strings.ReplaceAll(ps.Executed.String(), "\n", ""), x, strings.ReplaceAll(s.Positions().Minus(ps.Executed).String(), "\n", "")))
+						}
 					}
 				}
 				if strings.HasPrefix(p, "c") {
@@ -367,6 +379,9 @@ func c01Worlds(thorough bool) []c01World {
 	var ws []c01World
 	full := []string{"h1", "h2", "h3"}
 	kinds := []string{"to2", "to3", "from1", "auto-dead", "auto-hung", "auto-unhealthy", "forced"}
+	if thorough {
+		kinds = append(kinds, "forced-dead")
+	}
 	type rs struct{ a, b c01Rep }
 	if !thorough {
 		reps := []rs{
@@ -388,6 +403,11 @@ func c01Worlds(thorough bool) []c01World {
 		ws = append(ws, c01World{N: 3, Mode: "async", Kind: "auto-dead", List: full, Ahead: 2, Reps: []c01Rep{{0, 2}, {0, 0}}, Prio3: 10, SlowSQL: true, AsyncLagS: 5})
 		ws = append(ws, c01World{N: 3, Mode: "async", Kind: "auto-dead", List: full, Ahead: 2, Reps: []c01Rep{{0, 2}, {0, 0}}, Prio3: 10, SlowSQL: true, AsyncLagS: 20})
 		ws = append(ws, c01World{N: 3, Mode: "semisync1", Kind: "from1", Force: true, List: full, Ahead: 1, Reps: []c01Rep{{0, 1}, {0, 0}}})
+		// the async allowed-lag exception belongs to AUTOMATIC failover only: every other request kind
+		// with a lagging preferred candidate inside the allowed lag
+		for _, k := range []string{"forced", "forced-dead", "from1", "to3", "auto-hung"} {
+			ws = append(ws, c01World{N: 3, Mode: "async", Kind: k, List: full, Ahead: 2, Reps: []c01Rep{{0, 2}, {0, 0}}, Prio3: 10, SlowSQL: true, AsyncLagS: 5})
+		}
 		return ws
 	}
 	var repStates []c01Rep
